@@ -1079,12 +1079,12 @@ var ruleCursor = &Rule{
 		// byte-count advances of a variable amount of text: next(k) with non-constant k
 		next := c.SSAFunc(lexerPkgPath, "Lexer", "next")
 		nb := 0
+		cntOf := map[*ssa.Function]int{}
 		if next != nil {
 			for _, f := range c.ModFns() {
 				if f.Pkg == nil || f.Pkg.Pkg.Path() != lexerPkgPath {
 					continue
 				}
-				cnt := 0
 				for _, b := range f.Blocks {
 					for _, ins := range b.Instrs {
 						call, ok := ins.(*ssa.Call)
@@ -1094,10 +1094,26 @@ var ruleCursor = &Rule{
 						if _, isC := call.Call.Args[1].(*ssa.Const); isC {
 							continue // a fixed number of bytes: punctuation / operators
 						}
+						if p, isP := call.Call.Args[1].(*ssa.Parameter); isP && paramAlwaysConst(c, p) {
+							continue // a private helper that every caller gives a constant: still a fixed number of bytes
+						}
+						// a private helper with a single call site is part of its caller's body
+						own := f
+						for i := 0; i < 4 && byteAdvanceCallers[own.Name()] == ""; i++ {
+							cs := soleCaller(c, own)
+							if cs == nil || cs.Parent() == own {
+								break
+							}
+							own = cs.Parent()
+						}
+						if byteAdvanceCallers[own.Name()] == "" {
+							own = f
+						}
 						nb++
-						cnt++
-						key := fmt.Sprintf("LOC/cursor:byte-advance:%s#%d", f.Name(), cnt)
-						if why, ok := byteAdvanceCallers[f.Name()]; ok && cnt <= byteAdvanceCount[f.Name()] {
+						cntOf[own]++
+						cnt := cntOf[own]
+						key := fmt.Sprintf("LOC/cursor:byte-advance:%s#%d", own.Name(), cnt)
+						if why, ok := byteAdvanceCallers[own.Name()]; ok && cnt <= byteAdvanceCount[own.Name()] {
 							obs = append(obs, Ob{Key: key, Site: c.Pos(call.Pos()), Verdict: OK, Note: "reviewed: " + why})
 						} else {
 							obs = append(obs, Ob{Key: key, Site: c.Pos(call.Pos()), Verdict: VIOLATION,
@@ -1264,18 +1280,32 @@ var ruleLineStart = &Rule{
 					n++
 					cnt++
 					key := fmt.Sprintf("LOC/line-start:%s#%d", f.Name(), cnt)
-					ev := false
-					for d := b; d != nil && !ev; d = d.Idom() {
-						id := d.Idom()
-						if id == nil {
-							break
+					evAt := func(b *ssa.BasicBlock) bool {
+						for d := b; d != nil; d = d.Idom() {
+							id := d.Idom()
+							if id == nil {
+								break
+							}
+							iff, ok := id.Instrs[len(id.Instrs)-1].(*ssa.If)
+							if !ok || id.Succs[0] != d {
+								continue
+							}
+							if evidenceCond(iff.Cond, 0) {
+								return true
+							}
 						}
-						iff, ok := id.Instrs[len(id.Instrs)-1].(*ssa.If)
-						if !ok || id.Succs[0] != d {
-							continue
-						}
-						if evidenceCond(iff.Cond, 0) {
+						return false
+					}
+					ev := evAt(b)
+					if !ev {
+						// a private helper: the line terminator may have been recognised by every caller
+						if sites, closed := closedCallSites(c, f); closed && len(sites) > 0 {
 							ev = true
+							for _, cs := range sites {
+								if !evAt(cs.Block()) {
+									ev = false
+								}
+							}
 						}
 					}
 					if ev {
